@@ -240,6 +240,24 @@ func runConcurrent(args []string) error {
 						}
 					case x < 30:
 						c = helpers[gr.Intn(len(helpers))]
+					case x < 38 && x >= 33:
+						// a pattern nobody has used before (valid or invalid): concurrent FIRST uses go through the cache insert paths
+						pat := fmt.Sprintf("^r%dg%dk%d[a-z]", round, g, k)
+						if gr.Intn(2) == 0 {
+							pat = fmt.Sprintf("(r%dg%dk%d", round, g, k)
+						}
+						str := fmt.Sprintf("r%dg%dk%dz", round, g, k)
+						want := "Pattern nil"
+						if rexpFact(pat, str) != "match" {
+							want = "Pattern error"
+						}
+						c = &call{Class: "fresh-pattern", Desc: "Pattern " + pat, Ref: want}
+						c.run = func(strfmt.Registry) string {
+							if validate.Pattern("p", "q", str, pat) == nil {
+								return "Pattern nil"
+							}
+							return "Pattern error"
+						}
 					case x < 33:
 						validate.SetContinueOnErrors(gr.Intn(2) == 0) // package-level setter, concurrently with NewSpecValidator
 						continue
